@@ -1021,7 +1021,9 @@ func (t *Topic) saveAndBroadcastMessage(msg *ClientComMessage, asUid types.Uid, 
 	t.lastID++
 	t.touched = msg.Timestamp
 
-	if userFound {
+	if userFound && markedReadBySender {
+		// Keep the cached marks in line with the stored ones: the store marks the message as read
+		// by the sender only if the sender is a reader (and the update has succeeded).
 		pud.readID = t.lastID
 		pud.recvID = t.lastID
 		t.perUser[asUid] = pud
